@@ -269,6 +269,13 @@ def finalize(R):
                 R.report_violation(f'{desc} — observed: ' + str([{k: c.get(k) for k in ('ok', 'err', 'read_target')} for c in real['cycles']]), sc); break
         if not hit:
             R.inconclusive.append(f'solver counterexample for "{cx["obligation"]}" ({g}) ' + ('did not reproduce with the native recipes' if rec else 'has no native replay recipe') + f': {str(cx.get("model"))[:200]}')
+    if R.inconclusive and 'wiring/earliest-is-min' not in groups and not R.violations:
+        # the solver part could not read Repository::load (e.g. an unmodelled iterator adaptor): the native recipes for the recorded earliest
+        # expiration still decide; only a read_target that SUCCEEDS after the earliest role expired counts (a slow machine cannot fake that)
+        for desc, sc, _ in recipes('wiring/earliest-is-min'):
+            real = R.replay('history', sc, timeout=60)
+            if real['cycles'][0].get('ok') and real['cycles'][0].get('read_target') == 'ok':
+                R.report_violation(f'{desc} — observed: ' + str([{k: c.get(k) for k in ('ok', 'err', 'read_target')} for c in real['cycles']]), sc); break
     R.counterexamples_handled = True
 
 def replay_file(R, path):
